@@ -5,6 +5,7 @@ def CFG(R, FZ):
     return {
         "C01": dict(pkg="c01", level="exploration", runs=[R(shards=(8, 16))]),
         "C02": dict(pkg="c02", level="exploration", runs=[R(shards=(8, 16))]),
+        "C03": dict(pkg="c03", level="exploration", runs=[R(shards=(8, 16))]),
         "C04": dict(pkg="c04", level="exploration", runs=[R(shards=(8, 16))]),
         "C05": dict(pkg="c05", level="exploration", runs=[R(shards=(8, 16))]),
         "C06": dict(pkg="c06", level="exploration", runs=[R(shards=(8, 16))]),
